@@ -2,6 +2,7 @@ package main
 
 import (
 	"fmt"
+	"os"
 	"math/big"
 	"runtime"
 	"sort"
@@ -156,6 +157,7 @@ type Explorer struct {
 	okSeen int
 	sampleOK bool
 	pcHash   uint64
+	brSite   string
 	fitCache map[[2]uint64]bool
 }
 
@@ -213,7 +215,19 @@ func (e *Explorer) implied(c *Term) bool {
 
 // checkWith asks whether pc ∧ c is satisfiable; unsat verdicts are optionally cross-checked.
 func (e *Explorer) checkWith(c *Term) string {
+	if !e.sh.deadline.IsZero() && time.Now().After(e.sh.deadline) {
+		e.sh.mu.Lock()
+		e.sh.stop = true
+		e.sh.timedOut = true
+		e.sh.cond.Broadcast()
+		e.sh.mu.Unlock()
+		panic(pathEnd{"infeasible", "time budget exhausted"})
+	}
+	t0 := time.Now()
 	r := e.sol.CheckWith(c)
+	if d := time.Since(t0); d > time.Second && os.Getenv("GOSYM_SLOW") != "" {
+		fmt.Fprintf(os.Stderr, "SLOW %.1fs %s depth=%d path=%s\n", d.Seconds(), r, e.depth, e.choiceString())
+	}
 	if r == "unsat" && e.xsol != nil {
 		e.xsol.pc = append(e.xsol.pc[:0], e.pc...)
 		r2 := e.xsol.fresh(c)
@@ -315,7 +329,12 @@ func (e *Explorer) branch(c *Term) bool {
 	if c.op == "false" {
 		return false
 	}
-	opt := e.take("br", 2, func(i int) *Term {
+	kind := "br"
+	if e.brSite != "" {
+		kind = "br@" + e.brSite
+		e.brSite = ""
+	}
+	opt := e.take(kind, 2, func(i int) *Term {
 		if i == 0 {
 			return c
 		}
